@@ -58,6 +58,11 @@ func c04Views(prop string, cfg RouterCfg, hist []Op, r *Router, t *ref.Table, c 
 	}
 	routes := RoutesOf(r)
 	c.Probes++
+	for pat := range routes {
+		if t.Routes[pat] == nil {
+			rep(prop+".routes", "routes-lists-dead-pattern", "Routes()["+pat+"]", setString(routes[pat]), "not listed: no method is registered for it", hv.Req{}, "routes")
+		}
+	}
 	for _, pat := range t.Patterns() {
 		want := setString(t.Allow(pat))
 		w := Witness(t.Routes[pat].P)
